@@ -16,6 +16,24 @@ Gen_polar.v    <-  pydrex.tensors.polar_decompose, both variants, traced from th
   right; `np.diag`, `.transpose()`, `np.eye`, `.astype(float64)` are the obvious array operations.
   NumPy semantics added for this live in `TArr` / `PolarLinalg` / `PolarProxy` below (subclasses of
   the shared classes; nothing in symtrace.py changes).
+
+Gen_voigt.v    <-  pydrex.minerals.voigt_averages (Python glue, C10), traced from the real function at small
+                   sizes.  One definition per *configuration* (shapes are concrete, contents symbolic):
+
+  k_voigt_a{A}_m{nm}_s{ns}_g{ng} ph_0 .. ph_{nm-1} phis S_ol S_en O_0 F_0 .. O_{nm-1} F_{nm-1} : res (arr F)
+        A   = phase_assemblage as ordinals of MineralPhase (0 | 1 | 01 | 10), phis = phase_fractions (len(A) symbols)
+        ph_k = the `phase` attribute of mineral k -- a SYMBOLIC ordinal (forks on `== 0`, `== 1`, else: not a member)
+        S_ol, S_en = the `olivine` / `enstatite` attributes of a real `StiffnessTensors` instance (6x6 symbols);
+                     the real `StiffnessTensors.__iter__` runs inside the trace (lookup order = phase ordinal)
+        O_k (ns, ng, 3, 3), F_k (ns, ng) = the snapshots of mineral k (real `Mineral` objects whose
+                     `orientations` / `fractions` lists hold ns symbolic arrays, `n_grains` = ng)
+        result: the (ns, 6, 6) array, or Err ValueError (phase not in the assemblage) / Err IndexError (ordinal
+                     that indexes no stiffness tensor, too few phase fractions)
+    plus the validation branches (`k_voigt_bad_*`: unequal n_grains, unequal numbers of orientation / fraction
+    snapshots, no minerals, `n_grains` larger than the arrays) and too few phase fractions (`_f1`).
+  `_tensors.voigt_to_elastic_tensor`, `_tensors.rotate`, `_tensors.elastic_tensor_to_voigt` stay CALLS of the
+  generated kernels of Gen_tensors (signatures checked against specs_tensors); any other attribute of `_tensors`,
+  and any numpy function the proxy does not know, fails closed.
 """
 from __future__ import annotations
 
@@ -23,7 +41,7 @@ import types
 
 import numpy as _np
 
-from symtrace import (CONST, Cond, ProxyLinalg, ProxyNumpy, SArr, Spec, Translation,
+from symtrace import (CONST, Cond, ProxyLinalg, ProxyNumpy, SArr, Spec, SymInt, Translation,
                       TranslatorUnsupported, _obj, lift)
 
 
@@ -119,13 +137,33 @@ class PolarProxy(ProxyNumpy):
         return super().eye(n).view(TArr)
 
 
+class GlueTranslation(Translation):
+    """a definition all of whose paths raise (a validation branch at a fixed inconsistent shape) is allowed: its
+    result type is the one the spec declares (`ret_hint`)"""
+
+    def _trace(self, d):
+        try:
+            return super()._trace(d)
+        except TranslatorUnsupported as e:
+            hint = getattr(d["spec"], "ret_hint", None)
+            if "no path returns" not in str(e) or hint is None or "trees" not in d:
+                raise
+            d["ret"], d["fallible"] = hint, True
+
+    def ensure(self, pyname, statics):
+        d = super().ensure(pyname, statics)
+        if getattr(d["spec"], "force_fallible", False):
+            d["fallible"] = True            # result type `res ..` whether or not a path raises (keeps callers typed)
+        return d
+
+
 def polar_translation(tensors):
     """Gen_polar: the two variants of polar_decompose over the SVD oracle"""
     real = tensors.__dict__["polar_decompose"]
     real = getattr(real, "py_func", real)
     ad = types.ModuleType("pydrex_tensors_adapters")
     ad.np = None
-    tr = Translation(ad, [])
+    tr = GlueTranslation(ad, [])
     orc = SvdOracle()
     tr.proxy = PolarProxy(orc)
     tr.header_extra = "(* polar_decompose over the SVD oracle (U, S, Vh) = np.linalg.svd(matrix) *)\n"
@@ -138,7 +176,7 @@ def polar_translation(tensors):
             finally:
                 orc.matrix = orc.out = None
             # a path that returns without consulting the SVD is traced like any other: the instance lemmas
-            # Inst_tensors.polar_left_inst / polar_right_inst then no longer hold (used <= 1 is checked in svd)
+            # Inst_polar.polar_left_inst / polar_right_inst then no longer hold (used <= 1 is checked in svd)
             if not (isinstance(out, tuple) and len(out) == 2):
                 raise TranslatorUnsupported("polar_decompose does not return two values")
             return out
@@ -150,6 +188,9 @@ def polar_translation(tensors):
         ad.__dict__[nm] = fn
         tr.orig[nm] = fn
         tr.specs[nm] = Spec(ad, nm, params, cname="k_" + nm)
+    # the right variant raises for singular input in one version of the source and never in the repaired one:
+    # its generated type is `res` in both, so that Entry_tensors / Inst_tensors stay well typed across the repair
+    tr.specs["polar_decompose_right"].force_fallible = True
     saved = tensors.__dict__["np"]
     try:
         tensors.__dict__["np"] = tr.proxy
@@ -160,6 +201,164 @@ def polar_translation(tensors):
     return tr
 
 
+# ---------------------------------------------------------------------------------------
+# pydrex.minerals.voigt_averages
+# ---------------------------------------------------------------------------------------
+class _Closed:
+    """namespace standing for a module: only the listed names exist"""
+
+    def __init__(self, what, **names):
+        self.__dict__["_what"] = what
+        self.__dict__.update(names)
+
+    def __getattr__(self, name):
+        raise TranslatorUnsupported(f"{self._what}.{name} is not modelled by the glue translator")
+
+
+class PhaseOrd(SymInt):
+    """the `phase` attribute of a mineral: a symbolic ordinal of MineralPhase.  Used as a list index it is the
+    member it equals (fork per member); an ordinal that is no member indexes nothing (IndexError from the list)."""
+
+    members = (0, 1)
+
+    def __init__(self, name):
+        super().__init__(name)
+        self.value = None          # the member this ordinal was found equal to on the current path
+
+    def __eq__(self, o):
+        if isinstance(o, (int, _np.integer)) and self.value is not None:
+            return self.value == int(o)        # an ordinal equals at most one member
+        r = SymInt.__eq__(self, o)
+        if r is True:
+            self.value = int(o)
+        return r
+
+    def __ne__(self, o):
+        r = self.__eq__(o)
+        return r if r is NotImplemented else not r
+
+    def __index__(self):
+        for v in self.members:
+            if self == v:
+                return v
+        return 10 ** 9
+
+    __hash__ = SymInt.__hash__
+
+
+VOIGT_ASSEMBLAGES = {"0": (0,), "1": (1,), "01": (0, 1), "10": (1, 0)}
+VOIGT_SIZES = ((1, 1, 1), (2, 1, 1), (1, 2, 1), (1, 1, 2), (2, 2, 2))      # (minerals, snapshots, grains)
+
+
+def voigt_translation():
+    import logging
+    import pydrex.core as core
+    import pydrex.logger as plog
+    import pydrex.minerals as pm
+    import specs_tensors
+
+    tens_tr = specs_tensors.translations()[0][1]
+    PhaseOrd.members = tuple(int(p) for p in core.MineralPhase)
+    ad = types.ModuleType("pydrex_minerals_voigt_adapters")
+    ad.np = None
+    tr = GlueTranslation(ad, [])
+    tr.header_extra = "From PV.gen Require Import Gen_tensors.\n"
+    tr.plain_let_calls = True          # call results stay shared `let`s in the kernel term (see emit_coq.py)
+    proxy = tr.proxy
+
+    def kernel(name):
+        spec = tens_tr.specs[name]
+
+        def call(*a, **kw):
+            return tens_tr._stub(spec)(*a, **kw)
+        return call
+
+    glue_tensors = _Closed("pydrex.tensors", voigt_to_elastic_tensor=kernel("voigt_to_elastic_tensor"),
+                           elastic_tensor_to_voigt=kernel("elastic_tensor_to_voigt"), rotate=kernel("rotate"))
+    real = pm.__dict__["voigt_averages"]
+
+    def mk_mineral(ph, n_attr, os_, fs_):
+        m = pm.Mineral(phase=core.MineralPhase.olivine, fabric=core.MineralFabric.olivine_A,
+                       regime=core.DeformationRegime.matrix_dislocation, n_grains=max(n_attr, 1))
+        m.n_grains = n_attr
+        m.phase = ph
+        m.orientations = list(os_)
+        m.fractions = list(fs_)
+        return m
+
+    def mk(assemblage, nphi, layout):
+        """layout: per mineral (n_grains attribute, n orientation snapshots, n fraction snapshots, grains per array)"""
+        def voigt(*args):
+            nm = len(layout)
+            phs, rest = args[:nm], args[nm:]
+            phis, S_ol, S_en = rest[0], rest[1], rest[2]
+            arrs = rest[3:]
+            st = pm.StiffnessTensors(olivine=_np.zeros((6, 6)), enstatite=_np.zeros((6, 6)))
+            st.olivine, st.enstatite = S_ol, S_en
+            ms = []
+            for k, (n_attr, nos, nfs, _g) in enumerate(layout):
+                O, F = arrs[2 * k], arrs[2 * k + 1]
+                ms.append(mk_mineral(PhaseOrd(phs[k].name), n_attr, [O[i] for i in range(nos)], [F[i] for i in range(nfs)]))
+            asm = [core.MineralPhase(a) for a in assemblage]
+            fr = [phis[i] for i in range(nphi)]
+            keep = [(m.orientations[:], m.fractions[:]) for m in ms]
+            saved = [(k, pm.__dict__[k]) for k in ("np", "_tensors")]
+            pm.__dict__["np"], pm.__dict__["_tensors"] = proxy, glue_tensors
+            try:
+                out = real(ms, asm, fr, st)
+            finally:
+                for k, v in saved:
+                    pm.__dict__[k] = v
+            for m, (o0, f0) in zip(ms, keep):
+                if len(m.orientations) != len(o0) or any(a is not b for a, b in zip(m.orientations, o0)) or \
+                   len(m.fractions) != len(f0) or any(a is not b for a, b in zip(m.fractions, f0)):
+                    raise TranslatorUnsupported("voigt_averages replaces snapshots of its minerals")
+            if st.olivine is not S_ol or st.enstatite is not S_en:
+                raise TranslatorUnsupported("voigt_averages rebinds the stiffness attributes")
+            return out
+        return voigt
+
+    def register(name, assemblage, nphi, layout):
+        params = [(f"ph{k}", "enum", None) for k in range(len(layout))]
+        params += [("phis", "arr", (nphi,)), ("S_ol", "arr", (6, 6)), ("S_en", "arr", (6, 6))]
+        for k, (n_attr, nos, nfs, g) in enumerate(layout):
+            params += [(f"O{k}", "arr", (max(nos, 1), g, 3, 3)), (f"F{k}", "arr", (max(nfs, 1), g))]
+        fn = mk(assemblage, nphi, layout)
+        ad.__dict__[name] = fn
+        tr.orig[name] = fn
+        tr.specs[name] = Spec(ad, name, params, cname="k_" + name)
+        tr.specs[name].ret_hint = ("arr", (max([nos for _, nos, _, _ in layout] + [1]), 6, 6))
+        return name
+
+    names = []
+    for tag, asm in VOIGT_ASSEMBLAGES.items():
+        for nm, ns, ng in VOIGT_SIZES:
+            if len(asm) == 2 and (nm, ns, ng) == (2, 2, 2):
+                continue                # 9 phase combinations x 8 grain terms: 200 kB each, nothing new
+            names.append(register(f"voigt_a{tag}_m{nm}_s{ns}_g{ng}", asm, len(asm), [(ng, ns, ns, ng)] * nm))
+    # fewer fractions than phases
+    names.append(register("voigt_a01_m2_s1_g1_f1", (0, 1), 1, [(1, 1, 1, 1)] * 2))
+    # validation branches (two minerals, assemblage (olivine, enstatite))
+    names.append(register("voigt_bad_ngrains", (0, 1), 2, [(1, 1, 1, 1), (2, 1, 1, 2)]))
+    names.append(register("voigt_bad_osteps", (0, 1), 2, [(1, 1, 1, 1), (1, 2, 1, 1)]))
+    names.append(register("voigt_bad_fsteps", (0, 1), 2, [(1, 1, 1, 1), (1, 1, 2, 1)]))
+    names.append(register("voigt_bad_fsteps_first", (0,), 1, [(1, 1, 2, 1)]))
+    names.append(register("voigt_no_minerals", (0,), 1, []))
+    names.append(register("voigt_ngrains_attr_larger", (0,), 1, [(2, 1, 1, 1)]))
+
+    quiet = [(h, h.level) for h in plog.LOGGER.handlers]
+    try:
+        for h, _ in quiet:
+            h.setLevel(logging.CRITICAL)
+        for nm in names:
+            tr.ensure(nm, {})
+    finally:
+        for h, lvl in quiet:
+            h.setLevel(lvl)
+    return tr, pm.__file__
+
+
 def translations():
     import pydrex.tensors as tensors
-    return [("Gen_polar", polar_translation(tensors), tensors.__file__)]
+    vt, vsrc = voigt_translation()
+    return [("Gen_polar", polar_translation(tensors), tensors.__file__), ("Gen_voigt", vt, vsrc)]
